@@ -471,14 +471,35 @@ func runC03(r *mon.Run) {
 		var abs [regs]*oracle.Pt
 		for j := range lib {
 			P := pool[rng.Intn(np)]
-			z, _ := repZ(rng)
-			lib[j], abs[j] = pointRep(P.P, z), P.P
+			lib[j], _ = freshPointVia(rng, P.P, nil)
+			abs[j] = P.P
 		}
 		for s := 0; s < steps; s++ {
 			d, a, b := rng.Intn(regs), rng.Intn(regs), rng.Intn(regs)
-			op := rng.Intn(7)
+			op := rng.Intn(10)
 			var want *oracle.Pt
 			switch op {
+			case 7:
+				ctrl := gen.Pick(rng, gen.CtrlValues...)
+				want = abs[a]
+				if ctrl != 0 {
+					want = oracle.Neg(abs[a])
+				}
+				w.Trace("r%d = ConditionalNegate(r%d, %#x)", d, a, ctrl)
+				lib[d].ConditionalNegate(lib[a], ctrl)
+			case 8:
+				want = abs[a]
+				w.Trace("r%d = Set(r%d)", d, a)
+				lib[d].Set(lib[a])
+			case 9:
+				// observers of some OTHER register in between (their internal temporaries
+				// must not leak into later constructions), then a fresh identity as operand
+				o := rng.Intn(regs)
+				_ = lib[o].IsYOdd()
+				_ = lib[o].CompressedBytes()
+				want = abs[a]
+				w.Trace("r%d = Add(r%d, NewIdentityPoint()) after observers of r%d", d, a, o)
+				lib[d].Add(lib[a], secp256k1.NewIdentityPoint())
 			case 0, 1:
 				want = oracle.Add(abs[a], abs[b])
 				if !abs[a].Inf && abs[a].Eq(abs[b]) {
@@ -510,8 +531,10 @@ func runC03(r *mon.Run) {
 				P := pool[rng.Intn(np)]
 				z, cz := repZ(rng)
 				want = P.P
-				w.Trace("r%d = fresh %s[%s]", d, P.Name, cz)
-				lib[d] = pointRep(P.P, z)
+				var how string
+				lib[d], how = freshPointVia(rng, P.P, lib[d])
+				w.Trace("r%d = fresh %s via %s (%s)", d, P.Name, how, cz)
+				_ = z
 			}
 			if want.Inf && op < 3 {
 				w.Class("c03:drift:through-inf")
@@ -528,7 +551,12 @@ func runC03(r *mon.Run) {
 					return
 				}
 			}
-			// observers every few steps (and always without hooks)
+			// every public observer of the written register, every step
+			if msg := observersAgree(lib[d], want); msg != "" {
+				w.Fail("c03/drift:observers", fmt.Sprintf("step %d: r%d: %s", s, d, msg))
+				return
+			}
+			// (and the remaining checks every few steps, always without hooks)
 			if !hk.HaveCore || s%8 == 0 {
 				if msg := expectPoint(lib[d], want); msg != "" {
 					w.Fail("c03/drift:enc", fmt.Sprintf("step %d: r%d: %s", s, d, msg))
